@@ -76,6 +76,15 @@ def cases_for_rule(ri, rn, ctx):
         yield attrs + [["zzForeign", "x"]]
         if attrs:
             yield [["zzForeign", "x"]] + attrs[::-1]
+    # foreign names that are near-misses of declared ones (padding, case): unrecognised, and they do not stand in for the declared one
+    for a in decl:
+        listed = aspec[a][1:]
+        v = listed[0] if listed else "v"
+        for nm in (a + " ", " " + a, a.upper() if a.upper() != a else a.lower(), a + "x", a[:-1]):
+            if nm in aspec or nm == "":
+                continue
+            yield [[nm, v]]
+            yield [[d, (aspec[d][1] if len(aspec[d]) > 1 else "v")] for d in decl] + [[nm, v]]
 
 
 def run_one(ri, rn, attrs):
